@@ -9,13 +9,14 @@
    [mod_wf E m]: a groups modifier names groups of the assets (in Go they are taken from them). *)
 From Coq Require Import List NArith Bool.
 From Verif Require Import model.Contact model.Modifiers proofs.ModifiersBase proofs.GroupsProofs
-  proofs.ModifiersProofs proofs.ModifiersIdem proofs.ModifiersSprint.
+  proofs.ModifiersProofs proofs.ModifiersIdem proofs.ModifiersSprint proofs.ModifiersChan.
 Import ListNotations.
 Open Scope N_scope.
 
-(* replaying the emitted events, in order, over the contact as it was before gives exactly the contact
-   afterwards (everything json.Marshal shows: [erase] drops only the channel pointers, which mirror the
-   ?channel= part of the raw URN) — all nine modifiers, including the group re-evaluation that follows *)
+(* replaying the emitted events, in order, over the contact as it was before gives the contact afterwards as
+   json.Marshal shows it ([erase] drops the channel pointers; that they are determined by the raw URNs is
+   c03_channel_affinity_kept / c03_replay_modifier_exact below) — all nine modifiers, including the group
+   re-evaluation that follows *)
 Theorem c03_replay_modifier : forall E fresh m c c' evs modified,
   wf_contact E c -> mod_wf E m ->
   apply E fresh m c = (c', evs, modified) ->
@@ -86,3 +87,34 @@ Theorem c03_msg_received_time_partial : forall E k acts c c' evs t,
   run_sprint E k acts c = (c', evs) -> In (EMsgReceived t) evs -> kind_input k = Some t.
 Proof. exact sprint_msg_time. Qed.
 Print Assumptions c03_msg_received_time_partial.
+
+(* ---- the whole contact, channel pointers included -------------------------------------------------------------------
+   [chan_ok E c]: every channel pointer is the channel the raw URN names in its channel query, i.e. what reading the
+   marshalled contact back (flows.ParseRawURN) produces.  Every modifier keeps it (the URNs modifier since fix F3g);
+   [chan_env_ok]: SetChannel writes the channel it is given into the raw URN (computable, evaluated on every case). *)
+Theorem c03_channel_affinity_kept : forall E fresh m c c' evs modified,
+  chan_ok E c -> chan_env_ok E m c = true ->
+  apply E fresh m c = (c', evs, modified) -> chan_ok E c'.
+Proof. exact chan_ok_apply. Qed.
+Print Assumptions c03_channel_affinity_kept.
+
+(* hence the contact in memory is determined by its marshalled form ... *)
+Theorem c03_determined_by_marshalled : forall E a b, chan_ok E a -> chan_ok E b -> erase a = erase b -> a = b.
+Proof. exact determined_by_marshalled. Qed.
+Print Assumptions c03_determined_by_marshalled.
+
+(* ... the replayed contact, read back, IS the contact afterwards (no projection) ... *)
+Theorem c03_replay_modifier_exact : forall E fresh m c c' evs modified,
+  wf_contact E c -> mod_wf E m -> chan_ok E c -> chan_env_ok E m c = true ->
+  apply E fresh m c = (c', evs, modified) ->
+  reload E (replay evs c) = c' /\ chan_ok E c'.
+Proof. exact replay_modifier_exact. Qed.
+Print Assumptions c03_replay_modifier_exact.
+
+(* ... and a modifier that reports no change leaves the contact in memory exactly as it was (with
+   c03_modified_iff_changed: modified = false <-> nothing at all changed) *)
+Theorem c03_unmodified_untouched : forall E fresh m c c' evs,
+  wf_contact E c -> mod_wf E m -> chan_ok E c -> chan_env_ok E m c = true ->
+  apply E fresh m c = (c', evs, false) -> c' = c.
+Proof. exact unmodified_untouched. Qed.
+Print Assumptions c03_unmodified_untouched.
